@@ -73,8 +73,10 @@ def spaces(tier, seed):
         Product("composition-generated", {"src": ["gen"], "s": range(len(gen)), "li": range(nl), "ugo": [False, True], "dl": ["none"]}),
         Product("composition-corpus", {"src": ["corpus"], "s": cor_idx, "li": range(nl), "ugo": [False, True], "dl": ["none"]},
                 note="quick: the seed's quarter of the corpus; thorough: all"),
-        Product("defaults-generated", {"src": ["gen"], "s": range(len(gen)), "li": range(25), "ugo": [False], "dl": ["en", "detected", "other"]}),
-        Product("defaults-corpus", {"src": ["corpus"], "s": cor_idx, "li": range(25), "ugo": [False], "dl": ["en", "detected", "other"]}),
+        Product("defaults-generated", {"src": ["gen"], "s": range(len(gen)), "li": range(25), "ugo": [False], "dl": ["en", "detected", "other"],
+                                       "via": ["languages", "locales"]}),
+        Product("defaults-corpus", {"src": ["corpus"], "s": cor_idx, "li": range(25), "ugo": [False], "dl": ["en", "detected", "other"],
+                                    "via": ["languages", "locales"]}),
         Product("all-language-pairs-numeric", {"a": range(len(vocab.language_order())), "b": range(len(vocab.language_order())),
                                                "ns": ["10/03/2015", "03-04-05 10:30"], "ugo": [False, True]},
                 note="every ordered pair of the 205 languages on numeric dates every language accepts: the higher-priority (or first given) language decides"),
@@ -203,10 +205,14 @@ def run_case(sub, c):
     st = {"RELATIVE_BASE": BASE}
     if dl:
         st["DEFAULT_LANGUAGES"] = dl
-    o = api.outcome_of(api.gdd, s, langs, None, None, st, None, c["ugo"])
+    via = c.get("via", "languages")
+    if via == "locales":
+        o = api.outcome_of(api.gdd, s, None, langs, None, st, None, c["ugo"])
+    else:
+        o = api.outcome_of(api.gdd, s, langs, None, None, st, None, c["ugo"])
     if o[0] == "exc":
         return "bad", True, {"cls": {"form": sub, "kind": "exception:" + o[1]}, "expected": "no exception", "observed": o[1:],
-                             "detail": {"string": s, "languages": langs, "settings": st}}
+                             "detail": {"string": s, "languages": langs, "settings": st, "via": via}}
     dd = o[1]
     got = (dd.date_obj, dd.period, dd.locale)
     exp = None
@@ -226,10 +232,19 @@ def run_case(sub, c):
             problem = "not the first successful language's result" if not dl else "DEFAULT_LANGUAGES changed a result"
     elif not dl and dd.date_obj is not None:
         problem = "a result although no selected language parses"
+    elif dl:
+        # fallback: DEFAULT_LANGUAGES are tried (in priority order) after the selected ones
+        d_order = sorted(dl, key=prio)
+        d_res = [single(s, l) for l in d_order]
+        if all(r[0] != "exc" for r in d_res):
+            if d_res[0][0] is not None and got != d_res[0]:
+                problem = "DEFAULT_LANGUAGES fallback not used"
+            elif any(r[0] is not None for r in d_res) and dd.date_obj is None:
+                problem = "DEFAULT_LANGUAGES fallback not used"
     if problem is None:
         return ("ok" if exp is not None else "none-or-default"), exp is not None, None
-    return "bad", True, {"cls": {"form": sub, "kind": problem, "n": len(langs), "ugo": c["ugo"]}, "expected": exp, "observed": got,
-                         "detail": {"string": s, "languages": langs, "priority_order": order, "settings": st}}
+    return "bad", True, {"cls": {"form": sub, "kind": problem, "n": len(langs), "ugo": c["ugo"], "via": via}, "expected": exp, "observed": got,
+                         "detail": {"string": s, "languages": langs, "priority_order": order, "settings": st, "via": via}}
 
 
 _sl = {}
